@@ -787,6 +787,13 @@ func (a *ivAnalyzer) analyze(fn *ssa.Function, params []ival) ([]ival, bool) {
 							}
 							if len(res) == 1 {
 								e[x] = res[0]
+							} else if refs := x.Referrers(); refs != nil {
+								// several results: each component is read through an Extract
+								for _, ref := range *refs {
+									if ex, ok := ref.(*ssa.Extract); ok && ex.Index < len(res) {
+										e[ex] = res[ex.Index]
+									}
+								}
 							}
 						}
 					case *ssa.Return:
